@@ -1,4 +1,4 @@
-import Lt.Avl
+import RedisGoModel.Ds.Avl
 /-! C12 continued: the tree stays a search tree under insertion and deletion, and deletion removes exactly the key. -/
 namespace Avl
 open T
